@@ -37,7 +37,7 @@ CHECKS.update({
  "C02": ("pubmon", "exploration",
    "reference-model monitor at the Transport/Database boundary: recipient set and dereferences vs a graph model of delivery",
    "The real outbox delivery (client POST and Send) runs against seeded random federation graphs in the simulated network; the single BatchDeliver recipient list, every Dereference argument and the outcome are compared with an independent model (addressing ids, stored inboxes, recursive collection expansion to the depth limit, skipping of unreachable / garbled / unknown-type documents, de-duplication, removal of Public and of the sender's inbox).",
-   "Trusted: internal/sim (byte-level Database, recording Transport) and the JSON-level model in cmd/pubmon/c02.go. Graph size <= 10 actors + 6 collections; stored inboxes only for addressed non-member actors.",
+   "Trusted: internal/sim (byte-level Database, recording Transport) and the JSON-level model in cmd/pubmon/c02.go. Graph size <= 10 actors + 6 collections; stored inboxes for addressed actors (members of a remote collection only with the inbox their document names; the sender only with its own inbox).",
    "DESIGN.md 5/C02"),
  "C03": ("pubmon", "exploration",
    "trace-specification monitor over payload bytes: no bto/bcc through 'object', hidden recipients still served",
@@ -86,7 +86,7 @@ CHECKS.update({
    "DESIGN.md 5/C17"),
  "C20": ("pubmon", "exploration",
    "reference-model monitor on the ResponseWriter: body, status, Content-Type, Date, Digest vs independent computations",
-   "GetInbox/GetOutbox with random pages (0..30 items, duplicates anywhere) and the handler with stored values of every vocabulary type (bto/bcc through 'object', Tombstone, missing) under clock instants across years 1..9999; the body is compared with the model's JSON, Date with an independent IMF-fixdate formatter, Digest with a SHA-256 of the bytes actually written.",
+   "GetInbox/GetOutbox with random pages (0..30 items, duplicates anywhere) and the handler with stored values of every vocabulary type (bto/bcc through 'object', Tombstone, missing) under clock instants across years 1..9999, alone and as pairs of interleaved GETs (the first held inside a ResponseWriter call while the second is served on another goroutine); the body is compared with the model's JSON, Date with an independent IMF-fixdate formatter, Digest with a SHA-256 of the bytes actually written.",
    "Trusted: internal/sim ResponseWriter; pages in canonical lexical form.",
    "DESIGN.md 5/C20"),
 })
